@@ -518,6 +518,117 @@ func runC02(c *core.Ctx) {
 			}})
 	})
 
+	// lattice corners: maximal counts, longest strings, largest transient keys — field by field
+	c.Job("A/corners", 3, func(i int, r *core.Rand) {
+		for _, cn := range gen.Corners(r) {
+			cn := cn
+			sh := gen.Shape{"corner": cn.Name}
+			switch m := cn.Model.(type) {
+			case rm.Mapping:
+				f := &mfields{}
+				mMapping(f, "", m)
+				c02Direction(c, c02case{kind: "mapping", enc: cn.Bytes, want: f.Fields, shape: sh, site: "data.ReadMapping", parse: func(in []byte) (lib.Fields, []byte, bool, error) {
+					mp, rem, errs := data.ReadMapping(in)
+					if len(errs) > 0 {
+						return nil, rem, true, errs[0]
+					}
+					var g lib.Fields
+					lib.MappingFields(&g, "", mp)
+					return g, rem, true, nil
+				}})
+			case rm.RouterAddress:
+				f := &mfields{}
+				mRouterAddress(f, "", m)
+				c02Direction(c, c02case{kind: "raddr", enc: cn.Bytes, want: f.Fields, shape: sh, site: "router_address.ReadRouterAddress", parse: func(in []byte) (lib.Fields, []byte, bool, error) {
+					a, rem, err := router_address.ReadRouterAddress(in)
+					if err != nil {
+						return nil, rem, true, err
+					}
+					var g lib.Fields
+					lib.RouterAddressFields(&g, "", &a)
+					return g, rem, true, nil
+				}})
+			case rm.RouterInfo:
+				c02Direction(c, c02case{kind: "rinfo", enc: cn.Bytes, want: mRouterInfo(m), shape: sh, site: "router_info.ReadRouterInfo", parse: func(in []byte) (lib.Fields, []byte, bool, error) {
+					a, rem, err := router_info.ReadRouterInfo(in)
+					if err != nil {
+						return nil, rem, true, err
+					}
+					var g lib.Fields
+					lib.RouterInfoFields(&g, &a)
+					return g, rem, true, nil
+				}})
+			case rm.LeaseSet:
+				c02Direction(c, c02case{kind: "leaseset", enc: cn.Bytes, want: mLeaseSet(m), shape: sh, site: "lease_set.ReadLeaseSet", parse: func(in []byte) (lib.Fields, []byte, bool, error) {
+					a, err := lease_set.ReadLeaseSet(in)
+					if err != nil {
+						return nil, nil, false, err
+					}
+					var g lib.Fields
+					lib.LeaseSetFields(&g, &a)
+					return g, nil, false, nil
+				}})
+			case rm.LeaseSet2:
+				c02Direction(c, c02case{kind: "leaseset2", enc: cn.Bytes, want: mLeaseSet2(m), shape: sh, site: "lease_set2.ReadLeaseSet2", parse: func(in []byte) (lib.Fields, []byte, bool, error) {
+					a, rem, err := lease_set2.ReadLeaseSet2(in)
+					if err != nil {
+						return nil, rem, true, err
+					}
+					var g lib.Fields
+					lib.LeaseSet2Fields(&g, &a)
+					return g, rem, true, nil
+				}})
+			case rm.MetaLeaseSet:
+				c02Direction(c, c02case{kind: "metaleaseset", enc: cn.Bytes, want: mMeta(m), shape: sh, site: "meta_leaseset.ReadMetaLeaseSet", parse: func(in []byte) (lib.Fields, []byte, bool, error) {
+					a, rem, err := meta_leaseset.ReadMetaLeaseSet(in)
+					if err != nil {
+						return nil, rem, true, err
+					}
+					var g lib.Fields
+					lib.MetaLeaseSetFields(&g, &a)
+					return g, rem, true, nil
+				}})
+			case rm.EncryptedLeaseSet:
+				c02Direction(c, c02case{kind: "encleaseset", enc: cn.Bytes, want: mELS(m), shape: sh, site: "encrypted_leaseset.ReadEncryptedLeaseSet", parse: func(in []byte) (lib.Fields, []byte, bool, error) {
+					a, rem, err := encrypted_leaseset.ReadEncryptedLeaseSet(in)
+					if err != nil {
+						return nil, rem, true, err
+					}
+					var g lib.Fields
+					lib.EncryptedLeaseSetFields(&g, &a)
+					return g, rem, true, nil
+				}})
+			case rm.KAC:
+				if cn.Kind != "kac" {
+					continue
+				}
+				f := &mfields{}
+				mKAC(f, "", m)
+				c02Direction(c, c02case{kind: "kac", enc: cn.Bytes, want: f.Fields, shape: sh, site: "keys_and_cert.ReadKeysAndCert", parse: func(in []byte) (lib.Fields, []byte, bool, error) {
+					k, rem, err := keys_and_cert.ReadKeysAndCert(in)
+					if err != nil {
+						return nil, rem, true, err
+					}
+					var g lib.Fields
+					lib.KACFields(&g, "", k)
+					return g, rem, true, nil
+				}})
+			case rm.Cert:
+				f := &mfields{}
+				mCert(f, "", m)
+				c02Direction(c, c02case{kind: "cert", enc: cn.Bytes, want: f.Fields, shape: sh, site: "certificate.ReadCertificate", parse: func(in []byte) (lib.Fields, []byte, bool, error) {
+					cert, rem, err := certificate.ReadCertificate(in)
+					if err != nil {
+						return nil, rem, true, err
+					}
+					var g lib.Fields
+					lib.CertFields(&g, "", cert)
+					return g, rem, true, nil
+				}})
+			}
+		}
+	})
+
 	runC02B(c, n)
 }
 
